@@ -13,7 +13,7 @@ from .. import env
 from .. import gen, build, mcase, monitors
 
 ID = "C19"
-CASES = {"quick": 12000, "thorough": 200000}
+CASES = {"quick": 20000, "thorough": 200000}
 MIN_CASES_PER_SHARD = 30
 CASE_TIMEOUT = 60
 RULE = ("one case = generated map x trace (outliers, first observation too far or too improbable) x configuration (all families, non-emitting "
@@ -26,7 +26,7 @@ ANCHORS = [("leuvenmapmatching/matcher/base.py", "BaseMatching.next"),
            ("leuvenmapmatching/matcher/base.py", "LatticeColumn.prune"),
            ("leuvenmapmatching/matcher/base.py", "BaseMatcher.match")]
 FLOORS = {"results_compared": 2500, "debug_runs_with_stopped_entries": 700, "stopped_entries_materialised": 8000, "stream_handler_runs": 300,
-          "with_nonemitting": 600, "with_width": 500, "early_stops_compared": 300, "sqlite_backend_pairs": 200, "merge_class_pairs": 400, "merge_class_pairs_with_stopped_nonemitting_entry": 50}
+          "with_nonemitting": 600, "with_width": 500, "early_stops_compared": 300, "sqlite_backend_pairs": 200, "merge_class_pairs": 400, "tie_class_pairs": 400, "merge_class_pairs_with_stopped_nonemitting_entry": 50}
 ASSUMPTIONS = ["identical means: returned states, index, keys and log-probabilities of the best path compare equal (==)"]
 
 
@@ -100,6 +100,36 @@ def gen_triangle_case(rng):
 
 
 def gen_case(rng, i, tier):
+    if i % 10 == 3:
+        # exact ties (mirror-symmetric merge, symmetric fork, linked carriageways - the classes of C10) together with cut-offs
+        # that reject some candidates: the order in which equally probable candidates sit in a column must not depend on
+        # whether rejected ones were materialised
+        from .C10 import gen_mirror_case, gen_fork_case, gen_linked_tie_case
+        case = rng.choice([gen_mirror_case, gen_fork_case, gen_linked_tie_case])(rng)
+        case.pop("unique", None)
+        cfg = case["cfg"]
+        if case.get("fork") and rng.random() < 0.6:
+            # the whole trace on the axis of symmetry, starting so close to the fork that the branches are start candidates too:
+            # the branches tie at every observation, and a high probability cut-off rejects the move stem -> branch while
+            # staying on a branch passes
+            u_ = cfg["obs_noise"] / 2.0
+            case["trace"] = [[0.0, rng.choice([9.0, 9.5, 8.5]) * u_], [0.0, rng.choice([13.0, 15.0, 12.0]) * u_]]
+            cfg["obs_noise"] = rng.choice([10.0, 10.0, 5.0, 2.0]) * u_
+            cfg["max_dist"] = cfg["max_dist_init"] = rng.choice([20.0, 12.0, 8.0]) * u_
+            cfg["min_prob_norm"] = rng.choice([0.95, 0.95, 0.95, 0.9, 0.8])
+            cfg["non_emitting"] = rng.random() < 0.5
+            if rng.random() < 0.5:
+                cfg["family"] = "simple"
+            cfg["width"] = rng.choice([None, None, 3])
+        if rng.random() < (0.3 if case.get("fork") else 0.7):
+            mcase.tighten(case, rng)
+        if cfg["max_dist"] is None and cfg["min_prob_norm"] is None:
+            cfg["min_prob_norm"] = rng.choice([0.5, 0.1, 0.01])
+        case["ops"] = gen.gen_history(rng, len(case["trace"]), cfg["width"], allow_cwd=False, max_ops=2)
+        case["handler"] = rng.choice(["null", "null", "stream"])
+        case["backend"] = "inmem"
+        case["tie_class"] = True
+        return case
     if i % 10 == 7:
         case = gen_triangle_case(rng) if rng.random() < 0.5 else gen_merge_case(rng)
         case["ops"] = gen.gen_history(rng, len(case["trace"]), case["cfg"]["width"], allow_cwd=False, max_ops=2)
@@ -174,6 +204,8 @@ def check_case(ctx, case):
     mt1, r1 = run(case, True, ctx.scratch)
     if case.get("backend") == "sqlite":
         ctx.count("sqlite_backend_pairs")
+    if case.get("tie_class"):
+        ctx.count("tie_class_pairs")
     if case.get("merge"):
         ctx.count("merge_class_pairs")
         # the shape is reached when the DEBUG run holds a live non-emitting entry that has a stopped sibling candidate,
